@@ -341,6 +341,8 @@ impl DhtHandler {
         proof {
             // every transition to Bootstrapped starts the queued searches and one refresh round
             assert(arm == 2 && completed ==> self.initial_bootstrap_done && self.pending_lookups@.len() == 0 && self.one_refresh_pending()); // @C16.bootstrap_completion_releases_the_queued_searches @C18.one_round_per_bootstrap_completion @C11.refresh_starts_at_bootstrap_completion
+            // a state change that is not a completion starts no refresh round
+            assert(arm == 2 && !completed ==> no_new_refresh(old(self).timer, self.timer) && self.refresh == old(self).refresh); // @C18.no_refresh_round_without_a_completion_or_a_refresh_timeout
             // a fired refresh timeout runs a round and schedules the next one
             assert(arm == 0 && fired == Some(Some(ScheduledTaskCheck::TableRefresh)) ==> self.one_refresh_pending()); // @C11.every_refresh_timeout_runs_a_round_and_schedules_the_next @C18.next_round_scheduled_6s_ahead
         }
